@@ -1380,9 +1380,9 @@ def r16_3(prog, rep, rid='R16.3', tier='quick'):
                         'the construction site: %s' % (m.rel, cname, short(c)))
                 val = dflt if e is None else prog.fold(m, e)
                 if val is UNKNOWN:
-                    raise AnalysisError(
-                        'UNRECOGNISED-IDIOM %s: fwd item of %s is not a '
-                        'constant' % (m.rel, short(c)))
+                    # not a constant: R16.9 evaluates it for the messages
+                    # it may be read from (or says that it is not decided)
+                    continue
                 rep.check(val is True, rid, m.rel, '%s constructed with '
                           'fwd=True (%s)' % (cname, 'class default' if e is
                                              None else 'named'),
@@ -2746,6 +2746,320 @@ def r16_8(prog, rep, rid='R16.8'):
 
 
 # ------------------------------------------------------------------------------
+# R16.9  the protocol items of a new message that must travel do not depend on
+#        the journey of the message it is built from
+#
+# `fwd` and `origin` are journey markers: the forwarders rewrite them on the
+# way (the local -> proxy forwarder stamps the origin and - today - clears the
+# flag).  A message that has to reach the other sides (RPC request / reply) and
+# that is constructed FROM a received message (the reply from its request)
+# must therefore get its own markers from the class defaults or from constants
+# named at the construction site.  Decided by value: the constructor of the
+# class (an `__init__` of the package, if there is one; then ru.TypedDict:
+# defaults, from_dict, keywords - in this order) is interpreted for the request
+# as a subscriber sees it (a) on the side where it was published and (b) on
+# another side, i.e. after the two forwarders (evaluated, not assumed) have
+# handled it; the resulting items are given to the local -> proxy forwarder,
+# which must put the message on the proxy channel exactly once.
+#
+MUST_TRAVEL = ('RPCRequestMessage', 'RPCResultMessage')
+
+
+def _put_flags(outs):
+    """values of the forward flag of the one message put, over all switch
+    assignments; None if some path does not put exactly one message"""
+    if not outs:
+        return None
+    vals = set()
+    for sw, eff in outs:
+        puts = [e for e in eff if e[0] == 'put']
+        if len(puts) != 1 or len(eff) != 1:
+            return None
+        vals.add(bool(puts[0][3]))
+    return vals
+
+
+def arriving_requests(prog, fwd, pubvar, m0):
+    """[(where, {protocol items})]: a message constructed with the protocol
+    items m0 as a component that subscribes to the channel receives it - on
+    the publishing side (no forwarder touches that copy) and on another side
+    (stamped by the local -> proxy forwarder of the publisher, passed on by
+    the proxy -> local forwarder of the receiver).  The second entry is
+    missing if the forwarders do not deliver it / are not decided (R16.1 and
+    R16.6 report that)."""
+    out = [('on the side where it was published', dict(m0))]
+    f1 = _put_flags(outcomes_by_value(prog, fwd, pubvar, False, dict(m0)))
+    if f1 is None:
+        return out
+    for a in sorted(f1):
+        f2 = _put_flags(outcomes_by_value(
+            prog, fwd, pubvar, True, {'origin': 'OTHER', 'fwd': a}))
+        if f2 is None:
+            return out[:1]
+        for b in sorted(f2):
+            m = ('on another side (after the local -> proxy and the proxy -> '
+                 'local forwarder)', {'origin': 'OTHER', 'fwd': b})
+            if m not in out:
+                out.append(m)
+    return out
+
+
+def _package_init(prog, k):
+    for c in prog.mro(k):
+        f = c.methods.get('__init__')
+        if f is not None:
+            return f
+    return None
+
+
+def constructed_items(prog, k, site, call, bound):
+    """set of frozenset({protocol key: value}) - one per feasible path - of
+    the instance of message class `k` that `call` (in function / module
+    `site`) constructs when the names in `bound` ({name: dict}) hold these
+    messages; a value is UNK where it is not decided"""
+    defaults = {key: v[0] for key, v in class_defaults(prog, k).items()}
+    init = _package_init(prog, k)
+    ip = Interp(prog, k)
+    senv = {}
+    for nm, m in bound.items():
+        senv[nm] = dict(m)
+        for key in m:
+            if isinstance(key, str) and key.isidentifier():
+                senv['%s.%s' % (nm, key)] = m[key]
+
+    class _Mod:             # module level construction site
+        params = ()
+        cls = None
+
+    sf = site if hasattr(site, 'params') else _Mod()
+    if not hasattr(sf, 'module'):
+        sf.module = site
+
+    def items_of(from_dict, kws):
+        m = dict(defaults)
+        for layer in (from_dict, kws):
+            if layer is None:
+                continue
+            if not isinstance(layer, dict):
+                # not decided what it holds
+                for key in TAG_KEYS:
+                    m[key] = UNK
+                continue
+            for key in TAG_KEYS:
+                if key in layer:
+                    m[key] = layer[key]
+        return m
+
+    def kw_dict(fn, c, env, named=()):
+        out = {}
+        for kw in c.keywords:
+            if kw.arg is None:
+                v = ip.ev(fn, kw.value, env)
+                if not isinstance(v, dict):
+                    return UNK
+                out.update(v)
+            elif kw.arg not in named:
+                out[kw.arg] = ip.ev(fn, kw.value, env)
+        return out
+
+    if any(isinstance(a, ast.Starred) for a in call.args):
+        return {frozenset((key, UNK) for key in TAG_KEYS)}
+    if init is None:
+        fd = ip.ev(sf, call.args[0], senv) if call.args else None
+        kws = kw_dict(sf, call, senv, ('from_dict',))
+        e = kwarg(call, 'from_dict')
+        if e is not None and not call.args:
+            fd = ip.ev(sf, e, senv)
+        return {frozenset(items_of(fd, kws).items())}
+
+    cenv = ip._bind(sf, call, init, senv)
+    a = init.node.args
+    names = [x.arg for x in a.posonlyargs + a.args + a.kwonlyargs]
+    if a.kwarg:
+        cenv[a.kwarg.arg] = kw_dict(sf, call, senv, names)
+    for p, v in list(cenv.items()):
+        if isinstance(v, dict):
+            for key in v:
+                if isinstance(key, str) and key.isidentifier():
+                    cenv['%s.%s' % (p, key)] = v[key]
+    seen = []
+
+    def observe(fn, node, env):
+        if fn is not init or node.kind != 'stmt' or node.ast is None:
+            return
+        for c in calls_in(node.ast):
+            cn = call_name(c)
+            if not cn.endswith('.__init__'):
+                continue
+            args = list(c.args)
+            if not cn.startswith('super()'):
+                args = args[1:]                 # Base.__init__(self, ..)
+            if any(isinstance(x, ast.Starred) for x in args):
+                seen.append((UNK, UNK))
+                continue
+            fd = ip.ev(fn, args[0], env) if args else None
+            e = kwarg(c, 'from_dict')
+            if e is not None and not args:
+                fd = ip.ev(fn, e, env)
+            seen.append((fd, kw_dict(fn, c, env, ('from_dict',))))
+    ip.observe = observe
+    exits = ip.run(init, cenv)
+    if not seen or not exits:
+        raise AnalysisError('UNRECOGNISED-IDIOM %s: no call of the base class '
+                            'constructor found: what a new %s holds is not '
+                            'decided' % (init.where, k.name))
+    # items stored into the instance by the constructor itself
+    late = []
+    for fe in exits:
+        env = dict(fe)
+        d = {}
+        for key in TAG_KEYS:
+            for spelled in ("self[%r]" % key, 'self.%s' % key):
+                if spelled in env:
+                    d[key] = thaw(env[spelled])
+        if d not in late:
+            late.append(d)
+    out = set()
+    for fd, kws in seen:
+        for d in late:
+            m = items_of(fd, kws)
+            m.update(d)
+            out.add(frozenset(m.items()))
+    return out
+
+
+def _message_sites(prog, k):
+    """[(module, enclosing FuncInfo | None, call)] constructing class k"""
+    out = []
+    for m in prog.modules.values():
+        if k.name not in m.src:
+            continue
+        funcs = {}
+
+        def enter(f):
+            for c in calls_in(f.node):
+                funcs[id(c)] = f                # (the innermost function)
+            for g in f.nested.values():
+                enter(g)
+        for f in list(m.funcs.values()) + [
+                f for kk in m.classes.values() for f in kk.methods.values()]:
+            enter(f)
+        for c in calls_in(m.tree, nested=True):
+            r = prog.resolve(m, c.func) if isinstance(
+                c.func, (ast.Name, ast.Attribute)) else None
+            if r and r[0] == 'class' and r[1] is k:
+                out.append((m, funcs.get(id(c)), c))
+    return out
+
+
+def r16_9(prog, rep, rid='R16.9'):
+    rep.rule(rid, 'an RPC request / reply gets its protocol items (fwd, '
+             'origin) from the class defaults or from constants: built from '
+             'a received message (the reply from its request) - on the side '
+             'where that was published or on another side, i.e. after the '
+             'forwarders rewrote its items - it is put on the proxy channel '
+             'by the local -> proxy forwarder all the same', minimum=3)
+    cw, fwd, sub, pub, pubvar = forwarder(prog)
+    reqk = prog.cls(MSGS, MUST_TRAVEL[0])
+    m0 = {key: v[0] for key, v in class_defaults(prog, reqk).items()}
+    arriving = None
+    for cname in MUST_TRAVEL:
+        k = prog.cls(MSGS, cname)
+        rep.saw(k)
+        init = _package_init(prog, k)
+        if init is not None:
+            rep.saw(init)
+        dflt = {key: v[0] for key, v in class_defaults(prog, k).items()}
+        for m, f, c in _message_sites(prog, k):
+            site = f if f is not None else m
+            where = f if f is not None else m.rel
+            loc = 'src/radical/pilot/%s:%d' % (m.rel, c.lineno)
+            what = 'the protocol items of the new %s do not depend on the ' \
+                   'message it is built from' % cname
+            free = constructed_items(prog, k, site, c, {})
+            named = {key for key in TAG_KEYS if kwarg(c, key) is not None}
+            if all(v is not UNK for s in free for _, v in s):
+                # constants: the constructor may still override the default
+                # (the items named at the site are decided by R16.3)
+                wrong = [dict(s) for s in free
+                         if any(v != dflt.get(key, '<absent>')
+                                for key, v in s if key not in named)]
+                if not wrong:
+                    rep.ok(rid, where, what, loc)
+                    continue
+                cases = [('whatever it is built from', s) for s in wrong]
+            else:
+                # the items depend on an argument: on which message?
+                params = set(f.params) - {'self', 'cls'} if f is not None \
+                    else set()
+                roots = sorted({n.id for x in list(c.args) +
+                                [kw.value for kw in c.keywords]
+                                for n in ast.walk(x)
+                                if isinstance(n, ast.Name) and n.id in params})
+                if arriving is None:
+                    arriving = arriving_requests(prog, fwd, pubvar, m0)
+                cases = []
+                for label, req in arriving:
+                    msg = dict(req, uid='rpc.0000')
+                    got = constructed_items(prog, k, site, c,
+                                            {nm: msg for nm in roots})
+                    if any(v is UNK for s in got for _, v in s):
+                        raise AnalysisError(
+                            'UNRECOGNISED-IDIOM %s: the protocol items of '
+                            'the %s constructed at %s depend on its '
+                            'arguments in a way that is not decided'
+                            % (where if isinstance(where, str) else
+                               where.where, cname, loc))
+                    cases += [('from a request received %s [%s]' % (
+                        label, ', '.join('%r: %r' % kv for kv in
+                                         sorted(req.items()))), dict(s))
+                              for s in got]
+            problem = None
+            for label, items in cases:
+                items = {key: v for key, v in items.items()}
+                outs = outcomes_by_value(prog, fwd, pubvar, False, items)
+                if outs is None:
+                    raise AnalysisError(
+                        'UNRECOGNISED-IDIOM %s: what the forwarder does with '
+                        'a message holding %r is not decided'
+                        % (fwd.where, items))
+                for sw, eff in sorted(outs, key=repr):
+                    pr = judge(eff, False, True)
+                    if pr is not None:
+                        problem = (label, items, pr)
+                        break
+                if problem:
+                    break
+            if problem is None:
+                rep.ok(rid, where, what, loc)
+                continue
+            label, items, pr = problem
+            shown = ', '.join('%r: %r' % kv for kv in sorted(items.items()))
+            src = '%s.__init__' % init.cls.name if init is not None and \
+                not named else 'the construction site'
+            kind = 'reply' if 'Result' in cname else 'request'
+            rep.bad(rid, where, '%s:items' % cname,
+                    '%s: the %s constructed here %s holds {%s} (set by %s, '
+                    'class defaults {%s}): at the local -> proxy forwarder '
+                    '(%s) %s - the forwarders rewrite fwd / origin of every '
+                    'message they pass on, so items copied from a received '
+                    'message describe the journey of THAT message; the RPC '
+                    '%s never reaches the side that waits for it'
+                    % (where if isinstance(where, str) else where.where,
+                       cname, label, shown, src,
+                       ', '.join('%r: %r' % kv for kv in sorted(dflt.items())),
+                       fwd.qual, pr, kind),
+                    loc=loc,
+                    history='rpc() is called on side A (client) for a '
+                    'handler registered on side B (a pilot): the request '
+                    'crosses the proxy (origin stamped A, forward flag '
+                    'rewritten by the forwarder of A); the %s built on B %s '
+                    'is published with {%s} and is not forwarded: 0 '
+                    'deliveries on A (expected 1), rpc() never returns'
+                    % (kind, label, shown))
+
+
+# ------------------------------------------------------------------------------
 #
 def run(prog, rep, tier):
     rep.decided = ('the forwarder callback of Session.crosswire_pubsub '
@@ -2818,6 +3132,7 @@ def run(prog, rep, tier):
     rep.attempt(r16_6, prog, rep)
     rep.attempt(r16_7, prog, rep)
     rep.attempt(r16_8, prog, rep)
+    rep.attempt(r16_9, prog, rep)
     sides = rep.attempt(_side_runs, prog, rep)
     if sides is not None:
         rep.attempt(r16_4, prog, rep, sides)
